@@ -1,6 +1,138 @@
-//! Special runner `tvh c15 ...` for C15 (things that do not fit replay/record). Fill in.
+//! Special runner for C15 (spec -> impl for the provider's history independence).
+//!
+//! `tvh c15 workload <out.json> <tier>`  writes the tables of a few zones (tzif crate's parser only) and a
+//!     small workload of queries; TLC (spec/mc/MC_TzifReal.tla) computes the expected answers and enumerates
+//!     every order of the workload.
+//! `tvh c15 perms <cases.ndjson> <report.ndjson>`  replays every generated order against a fresh
+//!     FsTzdbProvider: each answer must be what the specification computed from the table, and the same
+//!     question must get the same answer in every order (reported with cls "order-dependent" otherwise).
+use crate::gen::*;
+use crate::ops_tzdb;
+use serde_json::{json, Value};
+use std::collections::BTreeMap;
+use std::io::{BufRead, BufReader, Write};
+use std::sync::atomic::{AtomicUsize, Ordering};
+use std::sync::Mutex;
+
+fn at(sec: i64, ns: i64) -> Value { json!({"d": sec.div_euclid(86_400), "s": sec.rem_euclid(86_400), "ns": ns}) }
+
+fn workload(out: &str, tier: &str) {
+    let zones = ["America/New_York", "Europe/Dublin", "Asia/Kolkata", "Nowhere/Land"];
+    let mut zs = Vec::new();
+    let mut tabs: BTreeMap<&str, Value> = BTreeMap::new();
+    for z in zones {
+        match ops_tzdb::read_table(z) {
+            Ok(t) => { zs.push(json!({"zone": z, "found": true, "table": t.clone()})); tabs.insert(z, t); }
+            Err(_) => zs.push(json!({"zone": z, "found": false})),
+        }
+    }
+    let day = |y, m, d| days_from_civil(y, m, d) * 86_400;
+    // the last table transition of Dublin before 2001 (a transition second: the new type must be in force)
+    let dub = tabs["Europe/Dublin"]["trans"].as_array().unwrap();
+    let t2001 = day(2001, 1, 1);
+    let tr = dub.iter().map(|t| t["d"].as_i64().unwrap() * 86_400 + t["s"].as_i64().unwrap()).filter(|&t| t < t2001).last().unwrap();
+    let mut qs = vec![
+        json!({"zone": "America/New_York", "kind": "offset", "at": at(day(2020, 7, 1) + 43_200, 0)}),
+        json!({"zone": "America/New_York", "kind": "local", "at": at(day(2021, 3, 14) + 9_000, 0)}),       // 02:30 in the spring gap
+        json!({"zone": "Europe/Dublin", "kind": "offset", "at": at(tr, 0)}),
+        json!({"zone": "Europe/Dublin", "kind": "local", "at": at(day(2020, 7, 1) + 43_200, 500_000_000)}),
+        json!({"zone": "Asia/Kolkata", "kind": "offset", "at": at(day(1900, 1, 1), 0)}),
+        json!({"zone": "Asia/Kolkata", "kind": "local", "at": at(day(2020, 1, 1), 0)}),
+        json!({"zone": "Nowhere/Land", "kind": "offset", "at": at(1_000_000_000, 0)}),
+    ];
+    if tier == "thorough" {
+        // one second (less a nanosecond) before New York's first transition: a query that panics today stays in the history
+        let ny = &tabs["America/New_York"]["trans"][0];
+        qs.push(json!({"zone": "America/New_York", "kind": "offset", "at": at(ny["d"].as_i64().unwrap() * 86_400 + ny["s"].as_i64().unwrap() - 1, 999_999_999)}));
+    }
+    std::fs::write(out, serde_json::to_string(&json!({"zones": zs, "queries": qs})).unwrap()).expect("write workload");
+    println!("{}", json!({"zones": zones.len(), "queries": qs.len()}));
+}
+
+/// expected vs observed: any error kind is "err"; instants are compared as a set
+fn agrees(exp: &Value, obs: &Value) -> bool {
+    let ok_ = obs["kind"].as_str().unwrap_or("");
+    match exp["kind"].as_str().unwrap_or("") {
+        "err" => matches!(ok_, "generic" | "range" | "type"),
+        "ok" => ok_ == "ok" && match (exp["val"].as_array(), obs["val"].as_array()) {
+            (Some(a), Some(b)) => { let mut x: Vec<String> = a.iter().map(|v| v.to_string()).collect(); let mut y: Vec<String> = b.iter().map(|v| v.to_string()).collect();
+                                    x.sort(); x.dedup(); y.sort(); y.dedup(); x == y }
+            _ => exp["val"] == obs["val"],
+        },
+        _ => false,
+    }
+}
+
+fn perms(cases: &str, report: &str) {
+    let mut expect: BTreeMap<i64, Value> = BTreeMap::new();
+    let mut orders: Vec<Vec<i64>> = Vec::new();
+    for l in BufReader::new(std::fs::File::open(cases).expect("cases")).lines() {
+        let l = l.unwrap();
+        if l.trim().is_empty() { continue; }
+        let c: Value = serde_json::from_str(&l).expect("case json");
+        match c["op"].as_str().unwrap() {
+            "Tzdb.expect" => { expect.insert(c["args"]["id"].as_i64().unwrap(), c); }
+            "Tzdb.session" => orders.push(c["args"]["order"].as_array().unwrap().iter().map(|x| x.as_i64().unwrap()).collect()),
+            o => panic!("unexpected case op {}", o),
+        }
+    }
+    for o in &orders { for id in o { assert!(expect.contains_key(id), "order mentions query {} without expectation", id); } }
+    let next = AtomicUsize::new(0);
+    // (query id, observed) -> (count, first session index)
+    let seen = Mutex::new(BTreeMap::<(i64, String), (usize, usize)>::new());
+    let calls = AtomicUsize::new(0);
+    let threads = std::thread::available_parallelism().map(|x| x.get()).unwrap_or(4).min(8);
+    std::thread::scope(|s| {
+        for _ in 0..threads {
+            s.spawn(|| {
+                let mut local: BTreeMap<(i64, String), (usize, usize)> = BTreeMap::new();
+                loop {
+                    let i = next.fetch_add(1, Ordering::Relaxed);
+                    if i >= orders.len() { break; }
+                    let steps: Vec<Value> = orders[i].iter().map(|id| expect[id]["args"]["q"].clone()).collect();
+                    let out = ops_tzdb::exec("Tzdb.session", &json!({"steps": steps})).expect("session op");
+                    let outs = out["val"].as_array().expect("session outcomes");
+                    calls.fetch_add(outs.len(), Ordering::Relaxed);
+                    for (k, o) in outs.iter().enumerate() {
+                        let e = local.entry((orders[i][k], o.to_string())).or_insert((0, i));
+                        e.0 += 1;
+                    }
+                }
+                let mut g = seen.lock().unwrap();
+                for (k, v) in local { let e = g.entry(k).or_insert((0, v.1)); e.0 += v.0; e.1 = e.1.min(v.1); }
+            });
+        }
+    });
+    let seen = seen.into_inner().unwrap();
+    let mut f = std::fs::File::create(report).expect("report");
+    let mut lines = 0;
+    let mut per_q: BTreeMap<i64, Vec<(&String, usize, usize)>> = BTreeMap::new();
+    for ((id, obs), (cnt, first)) in &seen { per_q.entry(*id).or_default().push((obs, *cnt, *first)); }
+    let mut samples = Vec::new();
+    for (id, obs) in &per_q {
+        let c = &expect[id];
+        let q = &c["args"]["q"];
+        if obs.len() > 1 {
+            writeln!(f, "{}", json!({"i": id, "op": q["op"], "cls": "order-dependent", "args": q["args"], "expected": "the same answer in every order",
+                                     "observed": {"kind": "differs", "val": obs.iter().map(|(o, n, s)| json!({"answer": serde_json::from_str::<Value>(o).unwrap(), "times": n, "first_order": orders[*s]})).collect::<Vec<_>>()}})).unwrap();
+            lines += 1;
+        }
+        for (o, n, s) in obs {
+            let o: Value = serde_json::from_str(o).unwrap();
+            if samples.len() < 3 { samples.push(json!({"op": q["op"], "args": q["args"], "expected": c["out"], "observed": o, "orders": n})); }
+            if !agrees(&c["out"], &o) {
+                writeln!(f, "{}", json!({"i": id, "op": q["op"], "cls": c["cls"], "args": q["args"], "expected": c["out"], "observed": o, "count": n, "first_order": orders[*s]})).unwrap();
+                lines += 1;
+            }
+        }
+    }
+    println!("{}", json!({"cases": orders.len(), "calls": calls.load(Ordering::Relaxed), "queries": expect.len(), "mismatches": lines, "samples": samples}));
+}
+
 pub fn main(a: &[String]) {
-    let _ = a;
-    eprintln!("not implemented");
-    std::process::exit(2);
+    match a.first().map(|s| s.as_str()) {
+        Some("workload") => workload(&a[1], a.get(2).map(|s| s.as_str()).unwrap_or("quick")),
+        Some("perms") => perms(&a[1], &a[2]),
+        _ => { eprintln!("usage: tvh c15 workload <out.json> <tier> | perms <cases> <report>"); std::process::exit(2); }
+    }
 }
